@@ -187,7 +187,7 @@ def emit() -> str:
         L.append(",\n".join(items) + "]")
         L.append("")
 
-    emit_chains("receiveChains", "receive", "TRANSLATED: `receive` of every shipped class through its class chain: (class, [(owner of the body, program)]), most derived first")
+    emit_chains("receiveChains", "receive", "TRANSLATED: `receive` of every shipped class through its class chain: (class, [(owner of the body, program)]), most derived first (a statement before the guard that has no translation is an opaque effect: the checker rejects that class)", strict=False)
     emit_chains("sendChains", "send", "TRANSLATED: `send` of every shipped class through its class chain (a statement before the guard that has no translation is an opaque effect: the checker rejects that class)", strict=False)
     # the C2 dispatch
     r = cs.resolve("AbstractC2", "_handle_c2_payload")
